@@ -90,6 +90,7 @@ struct MemoryStringStream : public dmlc::SeekStream {
     if (size == 0) {
       return 0;
     }
+    CHECK(curr_ptr_ + size >= curr_ptr_) << "MemoryStringStream::Write: stream position overflow";
     if (curr_ptr_ + size > p_buffer_->length()) {
       p_buffer_->resize(curr_ptr_ + size);
     }
